@@ -285,7 +285,13 @@ func writeProject(p pProject, dir string) (map[string]string, error) {
 		for _, l := range docLines(c.Free, c.Annots) {
 			sb.WriteString(ind + l + "\n")
 		}
-		if c.Grouped && !c.NoEmbed {
+		if c.Grouped && !c.NoEmbed && len(c.Annots) == 0 && len(c.Free) == 0 {
+			// a BARE group: no comment on the group, none on the controller, and a neighbour declared before it - what is
+			// said about the controller (the missing-@Tag warning) concerns the controller's own spec, not the group
+			sb.Reset()
+			sb.WriteString(ind + "type (\n" + ind + "\t" + c.Name + "Neighbour struct {\n" + ind + "\t\tX int\n" + ind + "\t}\n" +
+				ind + "\t" + c.Name + " struct {\n" + ind + "\t\truntime.GleeceController\n" + ind + "\t}\n" + ind + ")\n")
+		} else if c.Grouped && !c.NoEmbed {
 			// a documented group whose member carries its own doc comment (the member's comment is the one that counts)
 			var gb strings.Builder
 			gb.WriteString(ind + "// Declarations of the " + c.Name + " group\n" + ind + "type (\n")
@@ -321,7 +327,13 @@ func writeProject(p pProject, dir string) (map[string]string, error) {
 						qi++
 						names = append(names, m.Params[qi].Name)
 					}
-					ps = append(ps, strings.Join(names, ", ")+" "+q.Type)
+					sep := ", "
+					if (len(m.Name)+len(m.Params))%2 == 1 {
+						// … spread over several source lines: the declaration's range spans lines (C18: start not after end,
+						// inside the file, inside the declaration)
+						sep = ",\n" + ind + "\t"
+					}
+					ps = append(ps, strings.Join(names, sep)+" "+q.Type)
 					continue
 				}
 				ps = append(ps, q.Name+" "+q.Type)
